@@ -319,7 +319,7 @@ def _apply(v, e, c, ne, rse, mon, hist, sigs, label, ncells0):
     for vp in two:
         for x in vp:
             cnt[x] = cnt.get(x, 0) + 1
-    has_chain = rse and any(n > 1 for n in cnt.values())
+    has_chain = rse and topo.contraction_chain(t, ne)
     nfail0 = len(mon.fails)
     try:
         out = ve.generate_mesh(v, e, c, ne=ne, replace_short_edges=rse)
